@@ -672,3 +672,6 @@ RULES = [
     ("C11.MIREXCONST", 6, rule_mirexconst),
     ("C11.ENCODEALL", 4, rule_encodeall),
 ]
+
+from . import common as _common_purity
+RULES = RULES + _common_purity.purity_rules("C11")
